@@ -387,6 +387,9 @@ def validateGenesis (g : Genesis) : Res Unit := do
   if g.pausedActions.any (fun a => !actionValid a) then (.err "genesis:action-id" : Res Unit) else pure ()
   if hasDup g.pausedActions then (.err "genesis:duplicate-action" : Res Unit) else pure ()
 
+/-- An error during `InitGenesis` is a panic. -/
+def asPanic (r : Res OrbState) : Res OrbState := match r with | .err t => .panic ("InitGenesis:" ++ t) | x => x
+
 /-- `Keeper.InitGenesis` on an empty store. Any component error is a panic. -/
 def initGenesis (g : Genesis) : Res OrbState := do
   let o : OrbState := { params := some g.params }
@@ -406,7 +409,6 @@ def initGenesis (g : Genesis) : Res OrbState := do
         if hasNul src.2 then (.panic "InitGenesis:key-encoding" : Res OrbState)
         else pure { o with counts := upsert cntLt o.counts { srcProto := src.1, srcCp := src.2, dstProto := dst.1, dstCp := dst.2 } n }
       | _ => .panic "InitGenesis:nil-id") o
-  let asPanic (r : Res OrbState) : Res OrbState := match r with | .err t => .panic ("InitGenesis:" ++ t) | x => x
   let o ← g.pausedProtocols.foldlM (fun o p => asPanic (setPausedProtocol o p)) o
   let o ← g.pausedCrossChains.foldlM (fun o c => match c with
       | some (p, cp) => asPanic (setPausedCrossChain o p cp)
